@@ -76,6 +76,7 @@ func main() {
 	rep.Assume("callback begin/end events and API call/return events are numbered by one atomic counter inside the harness; the order of the numbers is consistent with happens-before")
 	rep.Assume("'completely stopped' is observed as the end of the harness stop callback (the scenarios run no workers or tasks; C05 covers those)")
 	rep.Assume("with concurrent clients only the determined part of the wanted set is demanded: modules enabled by calls that returned before the pass was called and not touched by any Enable/Disable in progress or issued until the caller's status snapshot; modules touched in that window may or may not be online")
+	rep.Assume("Enable/Disable calls made from the global prep function or a prep routine (returned before the first start routine began) count for the wanted set of that Start")
 	rep.Assume("wanted set = all registered modules, or with management the modules whose Enable() returned last before the pass was called plus their transitive dependencies; Enable/Disable/ManageModules are called from one goroutine")
 
 	var scs []Scenario
@@ -208,6 +209,10 @@ func main() {
 		}
 		rep.Count("change_notifications", r.out.Notifies)
 		rep.Count("ctrlfn_done_hook_delays", r.out.HookDelays)
+		if len(sc.PrepOps) > 0 {
+			rep.Count("scenarios_switching_modules_during_prep", 1)
+			rep.Count("wanted_set_checks_after_prep_switch", int64(v.PrepSwitchedChecks))
+		}
 		if sc.Conc != nil {
 			rep.Count("scenarios_concurrent_"+sc.Conc.Kind, 1)
 			rep.Count("concurrent_calls_overlapping", int64(v.OverlapCalls))
